@@ -44,7 +44,7 @@ CHECKS.update({
                 design="4/C07, 2.7", note=EEMS_NOTE),
     "C08": dict(engine="eems", technique="TLC: conversion/normalisation definitions + ConvAlgebra/ConvArrayAlgebra invariants; TLC validation of all executed cells and short arrays",
                 text="TLC enumerates cells x threshold pairs/directions/category tables/curves (all control-point orders) and every short array for the data-dependent conversions, checks the documented relations on Sem (thresholds -> +1/-1, inverse, variant = clamp of Normalize variant, order irrelevance, monotonicity) and validates the 17 real commands' results.",
-                design="4/C08, 2.7", note=EEMS_NOTE + " z-score commands only on data with rational standard deviation; NormalizeZScore default thresholds excluded (docs and code disagree)."),
+                design="4/C08, 2.7", note=EEMS_NOTE + " z-score commands only on data with rational standard deviation."),
 })
 
 CHECKS.update({
